@@ -48,11 +48,14 @@ func ruleAllocTableKeys(c *Ctx, rule string) {
 		if call == nil || call.Call.StaticCallee() != fp {
 			return nil, "key " + w.desc(k) + " is not a Fingerprint() call"
 		}
-		recv := stripIface(call.Call.Args[0])
-		if p, ok := recv.(*ssa.Parameter); ok && p.Parent() == fn {
-			return recv, ""
+		recv := stripIface(w.resolveLoad(call.Call.Args[0]))
+		root := w.bodyRoot(fn)
+		for _, p := range root.Params {
+			if isPtrToNamed(p.Type(), w.Named("allocation", "FiveTuple")) && w.sameKey(recv, p) {
+				return p, ""
+			}
 		}
-		return nil, "Fingerprint() receiver " + w.key(recv) + " is not a tuple parameter of " + fname(fn)
+		return nil, "Fingerprint() receiver " + w.key(recv) + " is not a tuple parameter of " + fname(root)
 	}
 	for _, fn := range w.ModFns {
 		w.eachInstr(fn, func(in ssa.Instruction) {
@@ -317,26 +320,28 @@ func ruleUniqueTuple(c *Ctx, rule string) {
 	create := w.Func("allocation", "Manager", "CreateAllocation")
 	fld := w.Field("allocation", "Manager", "allocations")
 	n := 0
-	w.eachInstr(create, func(in ssa.Instruction) {
-		mu, ok := in.(*ssa.MapUpdate)
-		if !ok {
-			return
-		}
-		if _, f, ok := fieldLoad(mu.Map); !ok || f != fld {
-			return
-		}
-		n++
-		c.Anchor(rule, "CreateAllocation insert")
-		kc, _ := callOf(w.resolveLoad(mu.Key))
-		g := w.guardedBy(in, get, -1, "nil", func(g *ssa.Call) bool {
-			return kc != nil && w.sameKey(g.Call.Args[0], create.Params[0]) && w.sameKey(g.Call.Args[1], kc.Call.Args[0])
+	for _, body := range w.helpersOf(create) {
+		w.eachInstr(body, func(in ssa.Instruction) {
+			mu, ok := in.(*ssa.MapUpdate)
+			if !ok {
+				return
+			}
+			if _, f, ok := fieldLoad(mu.Map); !ok || f != fld {
+				return
+			}
+			n++
+			c.Anchor(rule, "CreateAllocation insert")
+			kc, _ := callOf(w.resolveLoad(mu.Key))
+			g := w.guardedBy(in, get, -1, "nil", func(g *ssa.Call) bool {
+				return kc != nil && w.sameKey(g.Call.Args[0], create.Params[0]) && w.sameKey(g.Call.Args[1], kc.Call.Args[0])
+			})
+			if g != nil {
+				c.OK(rule, fname(create), "insert", w.instrPos(in), "dominated by m.GetAllocation(fiveTuple) == nil")
+			} else {
+				c.Bad(rule, fname(create), "insert", w.instrPos(in), "an allocation is inserted without the duplicate test GetAllocation(fiveTuple)==nil: an existing allocation on the same 5-tuple would be silently replaced (and leaked)", w.factsDesc(in)...)
+			}
 		})
-		if g != nil {
-			c.OK(rule, fname(create), "insert", w.instrPos(in), "dominated by m.GetAllocation(fiveTuple) == nil")
-		} else {
-			c.Bad(rule, fname(create), "insert", w.instrPos(in), "an allocation is inserted without the duplicate test GetAllocation(fiveTuple)==nil: an existing allocation on the same 5-tuple would be silently replaced (and leaked)", w.factsDesc(in)...)
-		}
-	})
+	}
 	if n == 0 {
 		c.Bad(rule, fname(create), "insert", w.pos(create.Pos()), "CreateAllocation no longer inserts into Manager.allocations: anchor gone")
 	}
